@@ -499,6 +499,7 @@ func errorResultsUsedRule(P *Program, R *Report, rule string, scope func(fn *ssa
 			}
 			n++
 			used, extracted := false, false
+			_ = extracted
 			if res.Len() == 1 {
 				extracted = true
 				for _, r := range referrersOf(c) {
@@ -523,7 +524,7 @@ func errorResultsUsedRule(P *Program, R *Report, rule string, scope func(fn *ssa
 			}
 			k++
 			key := fmt.Sprintf("%s:error-of(%s)#%d", FuncKey(ownerOf(P, fn)), calleeName(c), k)
-			if !extracted || res.Len() == 1 {
+			{
 				if why, ok := blankOK[FuncKey(ownerOf(P, fn))+":"+calleeName(c)]; ok {
 					R.ok(rule, key, "the error is deliberately not looked at: "+why)
 					continue
